@@ -27,6 +27,8 @@ KindsOne == {"Foreign"}
 ValuesAll == Values
 ValuesFew == {"None", "s3", "abc"}
 ValuesL == {"0", "s3", "300"}
+ValuesOne == {"s3"}
+PresTwo == {"none", "raise"}
 NoKinds == {}
 NoValues == {}
 
